@@ -109,15 +109,131 @@ const RUNTIME = `(function () {
     info.set(o, { kind: 'disp', path });
     return o;
   }
+
+  // ---- object-model shapes (spec/Lowering.tla, "object model" section)
+  // base classes: what the prototype (and, as a static, the constructor) carries under the keys
+  // x, 1 and y: B0 nothing, BA accessor pair, BG getter only, BS setter only, BR read-only data
+  // property, BD writable data property, BF nothing but the constructor returns a frozen object
+  const BKEYS = ['x', '1'];
+  function mkBase(path, cl) {
+    const Base = cl === 'BF'
+      ? class { constructor() { log('B'); return Object.freeze(Object.create(new.target.prototype)); } }
+      : class { constructor() { log('B'); } };
+    for (const tgt of [Base.prototype, Base]) {
+      const where = tgt === Base ? path + '.static' : path;
+      for (const key of BKEYS) {
+        const get = function () { log('bget:' + where + '.' + key); return 9; };
+        const set = function (v) { log('bset:' + where + '.' + key + '=' + fmt(v)); };
+        switch (cl) {
+          case 'BA': Object.defineProperty(tgt, key, { get, set, enumerable: false, configurable: true }); break;
+          case 'BG': Object.defineProperty(tgt, key, { get, enumerable: false, configurable: true }); break;
+          case 'BS': Object.defineProperty(tgt, key, { set, enumerable: false, configurable: true }); break;
+          case 'BR': Object.defineProperty(tgt, key, { value: 9, writable: false, enumerable: true, configurable: true }); break;
+          case 'BD': Object.defineProperty(tgt, key, { value: 9, writable: true, enumerable: true, configurable: true }); break;
+        }
+      }
+    }
+    info.set(Base, { kind: 'base', path });
+    info.set(Base.prototype, { kind: 'baseproto', path });
+    return Base;
+  }
+  // own-property descriptor of o[key]: "absent" | "own:EWC:<value>" (lower case = attribute false) | "own:acc:Ec"
+  function od(o, key) {
+    if (key === '@s') key = SYM;
+    const d = Object.getOwnPropertyDescriptor(o, key);
+    if (!d) return 'absent';
+    const a = (d.enumerable ? 'E' : 'e') + ('value' in d ? (d.writable ? 'W' : 'w') : '') + (d.configurable ? 'C' : 'c');
+    return 'value' in d ? 'own:' + a + ':' + fmt(d.value, 1) : 'own:acc:' + a;
+  }
+  // all own keys with descriptors plus the class of the prototype
+  function shape(o) {
+    // (length / name / prototype of a class are not part of the observation: function names are not compared)
+    const skip = typeof o === 'function' ? ['length', 'name', 'prototype'] : [];
+    const ents = Reflect.ownKeys(o).filter(key => !skip.includes(key)).map(key => fmtKey(key) + '=' + od(o, key));
+    const pr = Object.getPrototypeOf(o);
+    const pn = pr === Object.prototype ? 'Object' : pr === null ? 'null' : pr === Function.prototype ? 'Function' : info.has(pr) ? fmt(pr) : 'other';
+    return '<' + pn + '|' + ents.join(',') + '>';
+  }
+  // reading through the chain (logs accessor calls of the shapes above)
+  function rd(o, key) { try { return fmt(o[key], 1); } catch (e) { return 'throw:' + errName(e); } }
+  // sources of a copy: OP own enumerable data property "__proto__" (as JSON.parse makes it) next to "a";
+  // PX a Proxy logging the traps a copy performs; GX an object whose getter "a" throws;
+  // PA an object whose PROTOTYPE has a setter for "a"/"__proto__"-free accessor shapes (used as literal __proto__);
+  // FZ a frozen object with own "a"
+  class GErr extends Error { constructor(path) { super('getter ' + path); this.name = 'GErr(' + path + ')'; } }
+  const MARK = {};
+  info.set(MARK, { kind: 'mark', path: 'm' });
+  function mkSrc(path, cl) {
+    let o;
+    if (cl === 'OP') {
+      o = {};
+      Object.defineProperty(o, 'a', { value: 1, writable: true, enumerable: true, configurable: true });
+      Object.defineProperty(o, '__proto__', { value: MARK, writable: true, enumerable: true, configurable: true });
+      return o;
+    }
+    if (cl === 'GX') {
+      o = {};
+      Object.defineProperty(o, 'a', { get() { log('get:' + path + '.a'); throw new GErr(path); }, enumerable: true, configurable: true });
+      Object.defineProperty(o, 'c', { get() { log('get:' + path + '.c'); return 2; }, enumerable: true, configurable: true });
+      info.set(o, { kind: 'gx', path });
+      return o;
+    }
+    if (cl === 'PA') {
+      o = {};
+      Object.defineProperty(o, 'a', { get() { log('pget:' + path + '.a'); return 9; }, set(v) { log('pset:' + path + '.a=' + fmt(v)); }, enumerable: false, configurable: true });
+      Object.defineProperty(o, 'b', { value: 9, writable: false, enumerable: true, configurable: true });
+      Object.defineProperty(o, '1', { set(v) { log('pset:' + path + '.1=' + fmt(v)); }, enumerable: false, configurable: true });
+      info.set(o, { kind: 'pa', path });
+      return o;
+    }
+    if (cl === 'FZ') return Object.freeze({ a: 1 });
+    // PX
+    const t = { b: 2, a: 1 };
+    Object.defineProperty(t, 'h', { value: 6, enumerable: false, configurable: true });
+    t[SYM] = 8;
+    o = new Proxy(t, {
+      ownKeys(t) { log('ownKeys:' + path); return Reflect.ownKeys(t); },
+      getOwnPropertyDescriptor(t, key) { log('gopd:' + path + '.' + fmtKey(key)); return Reflect.getOwnPropertyDescriptor(t, key); },
+      get(t, key, r) { log('get:' + path + '.' + fmtKey(key)); return Reflect.get(t, key, r); },
+      has(t, key) { log('has:' + path + '.' + fmtKey(key)); return Reflect.has(t, key); },
+      getPrototypeOf(t) { log('getProto:' + path); return Reflect.getPrototypeOf(t); },
+    });
+    return o;
+  }
+  // thenables: TH resolves with 4, THX rejects with TErr, THS calls resolve synchronously twice (second ignored)
+  class TErr extends Error { constructor(path) { super('then ' + path); this.name = 'TErr(' + path + ')'; } }
+  function mkThen(path, cl) {
+    const o = {};
+    Object.defineProperty(o, 'then', { get() {
+      log('get:' + path + '.then');
+      return function (res, rej) {
+        log('then:' + path + ' this=' + (this === o ? 'self' : 'other'));
+        if (cl === 'THX') rej(new TErr(path)); else { res(4); if (cl === 'THS') res(6); }
+      };
+    }, enumerable: false, configurable: true });
+    info.set(o, { kind: 'then', path });
+    return o;
+  }
+  // error timing of a call: "sync:<error>" if the call itself throws, otherwise logs k:ret and
+  // reports how the returned promise / first next() settles
+  async function timing(call, isGen) {
+    let r;
+    try { r = call(); } catch (e) { return 'sync:' + errName(e); }
+    log('k:ret');
+    try { const v = await (isGen ? r.next() : r); return 'ok:' + fmt(isGen ? v.value : v, 1); } catch (e) { return 'rej:' + errName(e); }
+  }
   function p(i) {
     log('p' + i);
     const cl = ENV[i], path = 'p' + i;
     switch (cl) {
       case 'U': return undefined; case 'N': return null; case 'Z': return 0; case 'T': return 3; case 'W': return 2;
       case 'O': return mkObj(path); case 'F': return mkFn(path, false);
-      case 'S': return 't'; case 'Su': return 'u'; case 'Sa': return 'a';
+      case 'S': return 't'; case 'Su': return 'u'; case 'Sa': return 'a'; case 'Sx': return 'x'; case 'Sp': return '__proto__'; case 'W1': return 1;
       case 'G': return mkG(path);
       case 'D': case 'DX': case 'AD': case 'ADX': return mkDisp(path, cl);
+      case 'B0': case 'BA': case 'BG': case 'BS': case 'BR': case 'BD': case 'BF': return mkBase(path, cl);
+      case 'OP': case 'PX': case 'GX': case 'PA': case 'FZ': return mkSrc(path, cl);
+      case 'TH': case 'THX': case 'THS': return mkThen(path, cl);
       case 'X': throw new PErr(i);
     }
     throw new Error('no environment value for probe ' + i);
@@ -147,7 +263,7 @@ const RUNTIME = `(function () {
   }
   const pr = v => Promise.resolve(v);
   let registered = null;
-  Object.assign(globalThis, { p, k, idt, h, ai, si, pr, __run(fn) { registered = fn; } });
+  Object.assign(globalThis, { p, k, idt, h, ai, si, pr, od, shape, rd, timing, fmtv: v => fmt(v, 1), __run(fn) { registered = fn; } });
   return {
     take() { const f = registered; registered = null; return f; },
     begin(env) { LOG = []; ENV = env; CACHE = new Map(); return [mkObj('this'), mkObj('arg0')]; },
@@ -212,6 +328,7 @@ async function runProgram(pg) {
     if (native) {
       nat = await runOnce(rt, native, env); res.runs++;
       if (j === 0) res.sample = { env: pg.envs[j], native: nat };
+      if (pg.dump) (res.dump = res.dump || []).push({ env: pg.envs[j], native: nat, spec });
       if (predicted) {
         res.nSpecCompared++;
         if (!same(spec, nat)) { res.nSpecMismatch++; if (res.specMismatches.length < 2) res.specMismatches.push({ env: pg.envs[j], spec, native: nat }); }
@@ -219,10 +336,11 @@ async function runProgram(pg) {
     }
     for (const v of variants) {
       const low = await runOnce(rt, v.fn, env); res.runs++;
+      if (pg.dump && (!nat || !same(nat, low))) res.dump.push({ env: pg.envs[j], variant: v.key, lowered: low });
       if (nat) {
         if (!same(nat, low)) {
           res.nMismatch++;
-          if (res.mismatches.length < 3) res.mismatches.push({ variant: v.key, env: pg.envs[j], native: nat, lowered: low,
+          if (res.mismatches.length < 200) res.mismatches.push({ variant: v.key, env: pg.envs[j], native: nat, lowered: low,
                                                                specAgreesWithNative: predicted ? same(spec, nat) : null });
         }
       } else if (predicted) {
